@@ -179,6 +179,14 @@ def r_tagmap(run, F, T, check_registry=True, rule="R-TAGMAP"):
                     tagv = "<unknown byte>"      # `None =>` arm, `let Some(..) = .. else`, `if let Some .. else`
                 if isinstance(c[1], tuple) and c[1][0] == "proj" and c[4].get("k") in ("wild", "bind") and tagv is None:
                     tagv = "<other tags>"
+        both = False
+        for c in p.conds:
+            if c[0] == "match" and len(c) > 4 and is_call(c[1], "num_traits::FromPrimitive::from_u8", "ipp::model::ValueTag::from_u8") and isinstance(c[4], dict) and c[4].get("k") == "por":
+                alts_ = c[4]["pats"]
+                has_none = any(a_.get("k") == "pexpr" and str(a_.get("path", "")).endswith("::None") for a_ in alts_)
+                has_rest = any(a_.get("k") == "ptuplestruct" and str(a_.get("path", "")).endswith("::Some") and len(a_["pats"]) == 1 and a_["pats"][0].get("k") in ("wild", "bind") for a_ in alts_)
+                if has_none and has_rest:
+                    tagv, both = "<unknown byte>", True      # `None | Some(_) => Other { .. }`: the two fallbacks in one arm
         if val is None:
             continue
         kind = val[1] if val[0] == "ctor" else None
@@ -186,6 +194,8 @@ def r_tagmap(run, F, T, check_registry=True, rule="R-TAGMAP"):
             ok = val[0] == "ctor" and val[1] == V + "Other" and isinstance(val[2], dict) and val[2].get("tag") == ("var", pb["params"][0].get("name")) and \
                 val[2].get("data") == ("var", pb["params"][1].get("name"))
             fallback_ok.append(ok)
+            if both:
+                fallback_ok.append(ok)
             run.ob(rule, "parse fallback %s keeps tag and bytes" % tagv, ok, "fallback builds %s" % tshow(val)[:120], site(pb), key="%s|parse|fallback|%s" % (rule, tagv))
         elif tagv:
             for tv in tagvs or [tagv]:
@@ -726,7 +736,7 @@ def r_frame(run, F, rule="R-FRAME"):
             ok = len(evs) == 4 and evs[0].kind == "u8" and is_call(evs[0].value, TO_TAG) and evs[0].value[2][0] == val and \
                 evs[1].width == 2 and is_call(strip_cast(evs[1].value)[0]) and strip_cast(evs[1].value)[0][1] in LEN_CALLS and unbytes(strip_cast(evs[1].value)[0][2][0]) == nm and \
                 evs[2].kind == "slice" and unbytes(evs[2].value) == nm and \
-                evs[3].kind == "buf" and is_call(evs[3].value, TO_BYTES) and evs[3].value[2][0] == val
+                evs[3].kind in ("buf", "slice") and is_call(unbytes(evs[3].value), TO_BYTES) and unbytes(evs[3].value)[2][0] == val
             run.ob(rule, "attribute = value tag, name length, name, value (length + body)", ok, [repr(e)[:60] for e in evs], site(ab), key="%s|attribute-enc" % rule)
     from .readerrules import PARSERS, async_on
     for pty in PARSERS:
